@@ -543,6 +543,9 @@ func genC17(r *Rand, tier, profile string) *Case {
 	nodes := r.PickInt([]int{1, 1, 2})
 	c.Knobs["nodes"] = int64(nodes)
 	gossipKnobs(r, c)
+	// mount points come from the real file credential store (3-field lines)
+	c.Knobs["auth"] = 1
+	c.Steps = append(c.Steps, Step{K: "authtab", L: []string{"ua:pa:ta", "ub:pb:tb", "uc:pc:tc", "u:p:"}})
 	tenants := []string{"ta", "tb", "tc"}[:r.Range(2, 3)]
 	var ts []tstep
 	t := int64(1)
@@ -615,7 +618,7 @@ func genC17(r *Rand, tier, profile string) *Case {
 		t += 3
 	}
 	ts = append(ts, tstep{t + 10, Step{K: "sleep", I: 1500}})
-	c.Steps = mergeTimelines(ts)
+	c.Steps = append(c.Steps, mergeTimelines(ts)...)
 	return c
 }
 
@@ -929,7 +932,7 @@ func init() {
 		Assume: []string{"the password column of the file holds the SHA-256 hex of the password (what fileHandler compares against)", "user names are unique within a table"}})
 	register(&Check{ID: "C17", Level: "exploration", Build: "maporder", Gen: genC17, Run: runC17, QuickS: 30, ThoroughS: 480,
 		Rule:   "a case = 2-3 mount points with 1-3 clients each on 1-2 nodes, client ids shared across mount points on purpose, filters including bare '#', '+', '+/x', publishes, retained publishes and wills in every tenant, link cuts, late '#' subscribers per tenant; every message a client receives is traced to its publisher's mount point and topic; non-trivial when >=1 received message judged; distinct by hash of the scenario",
-		Real:   e1Real, Stub: append([]string{"auth: table stub mapping user -> mount point (the file handler is exercised by C16)"}, e1Stub...),
+		Real:   append([]string{"wasp/auth fileHandler over a generated 4-line file (mount points per user)"}, e1Real...), Stub: e1Stub,
 		Assume: []string{"client ids are unique within a mount point (sharing inside one tenant is C12's takeover)"}})
 	register(&Check{ID: "C18", Level: "exploration", Build: "maporder", Gen: genC18, Run: runC18, QuickS: 40, ThoroughS: 480, Isolated: true,
 		Rule:   "a case = one node with a witness and a bystander, 1-4 hostile connections (after a proper CONNECT or from the first byte) each sending 1-4 byte strings obtained from valid packets of every type by truncation, bit flips in type/flags, corrupted remaining length (continuation bytes, lengths beyond the data up to 1 MiB), corrupted length prefixes, QoS 3, empty topic lists, identifier 0, or random bytes, whole or fragmented; each case runs in its own process; after every hostile stream the witness completes a QoS 1 round trip within 5 s; non-trivial when >=1 round trip judged; distinct by hash of the scenario",
